@@ -153,7 +153,8 @@ def applyChange (tables : List (String × List ReplyRow)) (ch : Json) : List (St
     | some (.arr a), _ => a.toList.map jFields
     | _, some (.obj o) => rows ++ [o.toList]
     | _, _ =>
-      if jBool ch "remove" then rows.filter (fun r => !keyMatches r key)
+      if jBool ch "reverse" then rows.reverse
+      else if jBool ch "remove" then rows.filter (fun r => !keyMatches r key)
       else rows.map fun r => if keyMatches r key then (jFields (jObj ch "set")).foldl (fun r (k, v) => setField r k v) r else r
   if tables.any (·.1 == t) then tables.map (fun (n, rs) => if n == t then (n, rows') else (n, rs)) else tables ++ [(t, rows')]
 
